@@ -100,17 +100,18 @@ def _prepare(case):
     return A, Al
 
 
-def _call(case, Al):
+def _call(case, Al, out=None):
     import mahotas as mh
     k = case['kind']
+    okw = {} if out is None else {'out': out}
     with warnings.catch_warnings():
         warnings.simplefilter('ignore')
         if k == 'convolve':
             W = _wlayout(np.array(case['w'], np.float64).reshape(case['wshape']), case.get('wlayout', 'C'))
-            return mh.convolve(Al, W, mode=case['mode'])
+            return mh.convolve(Al, W, mode=case['mode'], **okw)
         if k == 'convolve1d':
             W = _wlayout(np.array(case['w'], np.float64), case.get('wlayout', 'C'))
-            return mh.convolve1d(Al, W, case['axis'], mode=case['mode'])
+            return mh.convolve1d(Al, W, case['axis'], mode=case['mode'], **okw)
         if k == 'fastwrites':
             from mahotas import _convolve
             out = np.full(Al.shape, 77, Al.dtype)
@@ -119,12 +120,12 @@ def _call(case, Al):
         if k == 'laplacian':
             return mh.laplacian_2D(Al, case['alpha'])
         if k == 'gaussian1d':
-            return mh.gaussian_filter1d(Al, case['sigma'], case['axis'], case['order'], mode=case['mode'])
+            return mh.gaussian_filter1d(Al, case['sigma'], case['axis'], case['order'], mode=case['mode'], **okw)
         if k == 'gaussian':
             # `_normalize_sequence`: a scalar stands for the same value on every axis
             sg = case['sigma'][0] if case.get('sigma_scalar') else (tuple(case['sigma']) if case.get('as_tuple') else case['sigma'])
             od = case['order'][0] if case.get('order_scalar') else (tuple(case['order']) if case.get('as_tuple') else case['order'])
-            return mh.gaussian_filter(Al, sg, od, mode=case['mode'])
+            return mh.gaussian_filter(Al, sg, od, mode=case['mode'], **okw)
         if k == 'sobel':
             return mh.sobel(Al, just_filter=True)
         if k == 'dog':
@@ -391,6 +392,24 @@ def evaluate(cases):
         f = _judge(case, got, drvs[id(case)])
         if not np.array_equal(before, Al):
             f.append(dict(kind='property', key='input-modified', detail={}))
+        if got is not None and case.get('outmode') and case['kind'] in ('convolve', 'convolve1d', 'gaussian', 'gaussian1d'):
+            # the same call with out= (the statement fixes the value of every call): filtered in place (out is the image itself)
+            # or into a pre-dirtied buffer of the result's dtype and shape; must equal the out-less result judged above
+            g0 = np.asarray(got)
+            try:
+                if case['outmode'] == 'inplace' and g0.dtype == Al.dtype and g0.shape == Al.shape:
+                    buf = np.ascontiguousarray(Al).copy()
+                    r2 = _call(case, buf, out=buf)
+                elif case['outmode'] == 'dirty':
+                    buf = np.full(g0.shape, 37, g0.dtype)
+                    r2 = _call(case, Al, out=buf)
+                else:
+                    r2 = buf = None
+                if r2 is not None and not (np.array_equal(np.asarray(r2), g0, equal_nan=True) and np.array_equal(buf, g0, equal_nan=True)):
+                    f.append(dict(kind='property', key=f"{case['kind']}:out={case['outmode']}", detail=dict(
+                        with_out=np.asarray(buf, np.float64).ravel()[:12].tolist(), without_out=g0.astype(np.float64).ravel()[:12].tolist())))
+            except Exception as e:  # a documented out buffer must be accepted
+                f.append(dict(kind='property', key=f"{case['kind']}:out={case['outmode']}:raises", detail=dict(exc=repr(e)[:200])))
         w = case.get('w')
         ws = case.get('wshape') or ([len(w)] if w is not None else [])
         ax = case.get('axis')
@@ -554,6 +573,7 @@ def cases(rng, tier):
         else:
             c.update(w=w, wshape=([1] * (len(shape) - 1)) + [len(w)])
         out.append(c)
+    n_before_random = len(out)
     for _ in range(nrand):
         r = rng.random()
         dtype = rng.choice(DTYPES)
@@ -647,6 +667,18 @@ def cases(rng, tier):
                     which = rng.choice(['sigma', 'order'])
                     c.pop('sigma_scalar', None) if which == 'sigma' else c.pop('order_scalar', None)
                     c[which] = (c[which] + [c[which][0]]) if rng.random() < 0.5 or nd == 1 else c[which][:-1]
+    # a share of the filter calls is repeated with out= (in place on a C-contiguous copy of the image, or into a dirty buffer)
+    for c in out[n_before_random:]:
+        if isinstance(c, dict) and c.get('kind') in ('convolve', 'convolve1d', 'gaussian', 'gaussian1d') and rng.random() < 0.25:
+            c['outmode'] = rng.choice(['inplace', 'inplace', 'dirty'])
+    # in-place Gaussian filtering of 1-D signals and of images whose first axis is shorter than the kernel
+    for _ in range(dict(quick=30, thorough=300, search=60)[tier]):
+        nd = rng.choice([1, 1, 2])
+        sigma = rng.choice([1.0, 1.5, 2.0])
+        shape = [rng.randint(3, 40)] if nd == 1 else [rng.randint(2, 9), rng.randint(12, 60)]
+        n = int(np.prod(shape))
+        out.append(dict(kind='gaussian', dtype='float64', shape=shape, data=[float(rng.randint(0, 255)) for _ in range(n)],
+                        sigma=[sigma] * nd, order=[0] * nd, mode=rng.choice(MODES[:4]), layout='C', outmode='inplace'))
     return out
 
 
